@@ -7,6 +7,7 @@ package tls
 
 import (
 	"crypto"
+	"crypto/ecdh"
 	"crypto/ecdsa"
 	"crypto/ed25519"
 	"crypto/elliptic"
@@ -416,3 +417,24 @@ func vfGenDNSName(t *rapid.T, label string) string {
 }
 
 func vfDeadline() time.Time { return time.Now().Add(vfIOTimeout) }
+
+// vfMakeECHConfig returns a one-entry ECHConfigList (X25519, HKDF-SHA256 with AES-128-GCM and ChaCha20-Poly1305) for
+// the public name and the matching server key.
+func vfMakeECHConfig(seed uint64, public string) (list []byte, key EncryptedClientHelloKey) {
+	kb := make([]byte, 32)
+	vfNewDetRand(seed, "ech-config|"+public).Read(kb)
+	priv, err := ecdh.X25519().NewPrivateKey(kb)
+	if err != nil {
+		panic(err)
+	}
+	var body []byte
+	body = append(body, byte(seed), 0x00, 0x20, 0, 32)
+	body = append(body, priv.PublicKey().Bytes()...)
+	body = append(body, 0, 8, 0, 1, 0, 1, 0, 1, 0, 3)
+	body = append(body, 64, byte(len(public)))
+	body = append(body, public...)
+	body = append(body, 0, 0)
+	raw := append([]byte{0xfe, 0x0d, byte(len(body) >> 8), byte(len(body))}, body...)
+	list = append([]byte{byte(len(raw) >> 8), byte(len(raw))}, raw...)
+	return list, EncryptedClientHelloKey{Config: raw, PrivateKey: priv.Bytes(), SendAsRetry: true}
+}
